@@ -2,6 +2,7 @@
 
      T1  C17-F2   keywords as names in the three naming positions       (SelectCoreC17.v)
      T2  C01      the parser model and the printer model never panic    (SelectCoreSafe.v)
+                  the supplied fuel always suffices                     (SelectCoreFuel.v)
      T3  C03      accepted input yields a usable statement              (SelectCoreSafe.v)
 
    [parse_model_fuel fuel ts] = one statement from the token list [ts] with recursion fuel [fuel]:
@@ -10,7 +11,7 @@
 From Coq Require Import List NArith Bool.
 From DC Require Import Base.Item Gen.TokenTable Tree.LineTree.
 From DC Require Import Select.SelectParseModel Select.SelectPrintModel.
-From DC Require Export Select.SelectCoreC17 Select.SelectCoreSafe.
+From DC Require Export Select.SelectCoreC17 Select.SelectCoreSafe Select.SelectCoreFuel.
 Import ListNotations.
 Local Open Scope N_scope.
 
